@@ -26,6 +26,30 @@ T = {
  "C15-A": ("C15", "raw/mod.rs: read-side RAM/I-O comparison `<= 0xEF` -> `< 0xEF`: a pure read at exactly 0xEF loses its wait cycle", "a load or an instruction fetch at address 0xEF"),
  "C15-B": ("C15", "control store: next-address bit flipped in the MUL entry word for Rs = R2: the idempotent step 'MOV R6,Rs' runs twice, one extra cycle, results unchanged", "MUL Rd,R2"),
  "C17-A": ("C17", "tui/input/mod.rs: previous_completion uses idx.checked_sub(1).unwrap_or(len): BackTab from the first completion indexes one past the end", "`s` Tab BackTab, `l` Tab BackTab, `FC` Tab BackTab, or `load <path>` Tab BackTab"),
+ "C01-C": ("C01", "raw/mod.rs write_to_memory: a 'skip redundant write' elision drops the bus write when the value equals what the same address reads in that cycle: stores to the write-only registers (0xFE/0xFF, board ports) are lost when the stored byte equals what a read of that address returns", "ST (0xFE/0xFF),Rn with the byte equal to the input register at that address (e.g. blanking an output with inputs 0), or a port write equal to the port's read value"),
+ "C01-D": ("C01", "control store word 0x0B9: ALU function of the write-back step of BITS (Rd+),src changed from B to BH: that one destination mode keeps a previously set carry instead of clearing it", "BITS with destination (Rd+) executed with the carry flag set"),
+ "C15-C": ("C15", "control store word 0x016: BUSEN set on the `MOV PC,2` step of the interrupt entry: a spurious read at the old PC, one extra wait per taken interrupt; architectural state unchanged", "a key interrupt actually taken while the interrupted PC is in RAM"),
+ "C04-C": ("C04", "raw/mod.rs trigger_key_edge_interrupt: a press is only latched while MISR.KEY_INTERRUPT_PENDING is clear; that bit is cleared only by a RETI fetch, so after one press dropped with IE clear every later press is lost", "two presses: the first while the enable bit is set but IE is clear (between BITS (0xF9) and EI, or in a DI window), the second when fully enabled"),
+ "C04-D": ("C04", "control store word 0x015 (second DI word of the interrupt entry): MALUIB cleared, computes FR & ~R0 instead of FR & 7: with R0 bit 3 clear the routine is entered with IE still set (and other flag bits wrong)", "interrupt entry while R0 has bit 3 clear; shows as nesting on a second press or in the flag register inside the routine"),
+ "C05-C": ("C05", "raw/mod.rs apply_pending_register_writes refactored into a match: the arm for a flag write and a register write on the same edge omits the SP/PC supervision", "LDSP into a forbidden value, or arithmetic with PC as destination (flag + register write at the same edge)"),
+ "C05-D": ("C05", "machine/mod.rs Machine::load: Programsize::NotSet shares the arm of Auto: *PROGRAMSIZE NOSET replaces the kept limit with the new program's byte count", "reload of a program that says *PROGRAMSIZE NOSET over a machine with a different limit"),
+ "C07-C": ("C07", "raw/mod.rs cpu_reset resets the micro-sequencer only when the machine was Running: a machine error-stopped in the middle of an instruction keeps its stale micro-address through cpu_reset, master_reset and load", "reset of a machine that was error-stopped mid-instruction by the supervision (e.g. PUSH without LDSP)"),
+ "C07-D": ("C07", "board.rs Board::master_reset clears ICR/UDR through their setters; set_icr also deletes the board's interrupt flip-flop (read at 0xF3)", "a board interrupt flip-flop set by an armed source and its input edge, then master_reset or load"),
+ "C11-C": ("C11", "machine/mod.rs: the assembly step loop ends on `is_instruction_done() || (mac1 && mac2)`: with an interrupt taken after an instruction outside page 0 the step ends on the `int:` word, the entry becomes a step of its own", "assembly step while an enabled key interrupt is served after a non-page-0 instruction"),
+ "C11-D": ("C11", "machine/mod.rs: trigger_key_continue also runs to the next boundary when it resumes a Stopped machine in Assembly step mode", "CONTINUE pressed on a stopped machine while the step mode is Assembly"),
+ "C09-C": ("C09", "control store word 0x083 (trap of 0x4C-0x4F): MAC 0000 -> 0010 turns the self-loop into a branch on the ALU zero-out of R0: with R0 != 0 the undefined opcodes fall into TST and complete", "opcode 0x4C-0x4F executed with R0 != 0"),
+ "C09-D": ("C09", "raw/mod.rs cpu_reset no longer resets the instruction register: a reset taken while a non-page-0 opcode is in flight starts the sequencer mid-routine (all-zero word after ADD/ADC, endless loop after DIV)", "cpu_reset / master_reset / load while the instruction register holds a non-page-0 opcode"),
+ "C09-E": ("C09", "control store word 0x182 (DIV entry for source R2): NA0 cleared, the branch tests the carry-out of a B-pass (always 0): DIV Rd,R2 with R2 == 0 never takes the divide-by-zero exit and never terminates", "DIV Rd,R2 with R2 == 0"),
+ "C10-C": ("C10", "bus.rs read(0xF9) returns the status register with the pending flags of MICR-masked sources removed: the write-only mask leaks into the status read", "key interrupt triggered while enabled, then 0xF9 rewritten with bit 0 clear, then a read of 0xF9"),
+ "C10-D": ("C10", "bus.rs read(0xF1) blanks the UIO status bits of pins configured as outputs", "a UDR write and a UOR write for the same pin (either order), then a read of 0xF1"),
+ "C14-C": ("C14", "board.rs set_temp re-evaluates comparator 2 only when temp >= analog input 2: the comparator bit and a falling Comp2 interrupt go stale", "new temperature < AI2 <= DAC2 < old temperature"),
+ "C14-D": ("C14", "board.rs: a write to 0xF3 also clears the source flag when the ICR's EDGE bit is set", "ICR with EDGE and a source 1..6, the matching transition, then a write to 0xF3"),
+ "C13-C": ("C13", "board.rs set_udr gained a warning that indexes uio_dir[source - 1]: index out of bounds for interrupt sources 4..7", "ICR write selecting source 4..7, later any UDR write"),
+ "C12-C": ("C12", "runner/mod.rs (lib) RunExpectations::verify rewritten with early returns: a leftover `else` skips the FF expectation whenever an FE expectation is stated and matches", "verify with FE stated and matching and FF stated and mismatching"),
+ "C12-D": ("C12", "emulator-2a/src/runner/mod.rs (binary): a filter 'drop events that can never fire' keeps cycle < N-1 instead of <=: a --reset/--interrupt scheduled for exactly the last budgeted cycle is dropped", "`--reset N-1` (or --interrupt) with a visible effect at the last cycle"),
+ "C17-C": ("C17", "tui/input/mod.rs: Enter no longer records whitespace-only lines in the history, so handle_input re-executes the previous command line without a notification", "an effectful command, then a line of only blanks + Enter"),
+ "C17-D": ("C17", "tui/program_help_sidebar/program_display.rs: scrolling fix `top + area_height - 1` underflows when the program pane has zero rows", "terminal height exactly 28 while the input starts with `set ` (14-line help page)"),
+ "C17-E": ("C17", "tui/input/mod.rs: Up/Down folded into recall(); the None case clears the line but does not reset the cursor", "`x` Enter Up Down, then any character or Backspace"),
  "C17-B": ("C17", "tui/input/parser.rs: nr_bin folds bits with shifts instead of from_str_radix: a 0b literal with more than 8 significant bits is truncated mod 256 instead of rejected", "`FC = 0b100000000`, `set IRG = 0b111111111`"),
 }
 for sid, (prop, what, needs) in sorted(T.items()):
